@@ -586,7 +586,36 @@ def leaves_of(model, acc):
     return acc
 
 
-def zblocks_of(cmd, dic, alg):
+def variational_x_ids(spec):
+    """ids of the parameters the variational distribution of the emitted file is placed on, in order (a full-rank
+    or flow distribution lists them under "x"; the loaded object only keeps their concatenation)"""
+    out = []
+
+    def ids(x):
+        if isinstance(x, str):
+            out.append(x)
+        elif isinstance(x, dict) and "id" in x:
+            out.append(x["id"])
+        elif isinstance(x, list):
+            for e in x:
+                ids(e)
+
+    def walk(d):
+        if not isinstance(d, dict):
+            return
+        if "distributions" in d and isinstance(d["distributions"], list):
+            for e in d["distributions"]:
+                walk(e)
+        elif "x" in d:
+            ids(d["x"])
+
+    for e in spec if isinstance(spec, list) else []:
+        if isinstance(e, dict) and e.get("id") == "variational":
+            walk(e)
+    return out
+
+
+def zblocks_of(cmd, dic, alg, spec=None):
     """the tensors the algorithm moves (operators' parameters / x of the variational distribution)"""
     blocks = []
     seen = set()
@@ -604,6 +633,11 @@ def zblocks_of(cmd, dic, alg):
         for p in alg.parameters:
             add(p)
     else:
+        ids = variational_x_ids(spec) if spec is not None else []
+        if ids and all(i in dic and hasattr(dic[i], "tensor") for i in ids):
+            for i in ids:
+                add(dic[i])
+            return blocks
         q = dic.get("variational")
         if q is None:
             return None
@@ -1000,7 +1034,7 @@ def eval_config(cmd, opts, data, res, case):
     if len(res.fails) > nfail:
         # not the requested starting point: what follows would only restate it
         return out
-    blocks = zblocks_of(cmd, dic, alg) if alg is not None else None
+    blocks = zblocks_of(cmd, dic, alg, spec) if alg is not None else None
     out["nblocks"] = len(blocks) if blocks else 0
     # ---- (b) target and gradient finite at the initial point
     density = dic.get("joint.jacobian") if cmd != "map" else joint
